@@ -348,6 +348,10 @@ def gen_unit(unit, _stack=()):
             region_src = "\n".join(region) + "\n"
             pieces = parse_region(region_src)
             real, info = extract_real(file_, kind, name, opts)
+            # guard: an unmarked template would silently lose its proof text in a merge
+            for t in exec_tokens(pieces):
+                if t.kind == "id" and t.text in ("requires", "ensures", "invariant", "decreases", "recommends", "invariant_except_break"):
+                    raise UnitError("%s::%s: template region is not marked (ghost keyword `%s` among exec tokens); run ./vfx mark %s" % (unit, name, t.text, unit))
             probs = validate_ghost(pieces, "%s::%s" % (unit, name))
             g.problems += probs
             text, changed = merge(pieces, real)
